@@ -220,6 +220,12 @@ def run(oc, tier, seed):
         if not ok:
             break
     oc.samples.append("history %d steps on generated pages" % 3)
+    # the tie of the page-level theorem (C11_dates_written_into_page) to the real reindex
+    if not any(f[3] is None for f in oc.spec_fail):
+        from harness import pagewb
+        pagewb.run_mdate(eng, random.Random(seed + 5), oc, 12 if tier == "quick" else 200)
+        oc.rule += ("; PAGE theorem tie: abstract pages whose items all carry ZIDs, some items edited, reindexed the next "
+                    "day: the file equals page_text (stamped d chosen pg) whenever mdate_readyb holds")
     eng.close()
 
 
